@@ -80,6 +80,7 @@ class Result:
         self.corr = []            # (stage, line, verdict)
         self.internal = []        # strings
         self.samples = []
+        self.sample_keys = {}
         self.stage_info = []
         self.exhaustive_scopes = []
 
@@ -118,8 +119,10 @@ def process(prop, stage, impl, ver, crashed, res, known, nlines):
                 res.tags[t] = res.tags.get(t, 0) + 1
         if any(t and t not in trivial for t in tags):
             res.nontrivial.add(hashlib.blake2b(line.split(" => ")[0].encode(), digest_size=8).digest())
-        if len(res.samples) < 12 and (res.evaluations % 97 == 1 or len(res.samples) < 3):
-            res.samples.append(line[:600])
+        key = (op, tuple(tags[:2]))
+        if len(res.samples) < 16 and res.sample_keys.get(key, 0) < 1:
+            res.sample_keys[key] = res.sample_keys.get(key, 0) + 1
+            res.samples.append(line[:700])
 
 def run_stage(prop, stage, tier, rng, driver, res, known, extra_lines=None):
     t0 = time.time()
